@@ -534,3 +534,136 @@ Proof.
     replace (chars_count [b]) with 1 by (unfold chars_count; cbn [filter]; rewrite Hbb; reflexivity).
     destruct (utf8_valid_b (cl ++ [b])); lia.
 Qed.
+
+(* ---------------------------------------------------------------------------------- *)
+(* rendering reaches no panic site                                                     *)
+(* ---------------------------------------------------------------------------------- *)
+Lemma sub_chk_ok a b : b <= a -> sub_chk a b = Some (a - b).
+Proof. intro H. unfold sub_chk. apply Nat.leb_le in H. rewrite H. reflexivity. Qed.
+
+Lemma slice_chk_ok s a b : a <= b -> b <= length s -> slice_chk s a b = Some (slice s a b).
+Proof.
+  intros H1 H2. unfold slice_chk. apply Nat.leb_le in H1. apply Nat.leb_le in H2.
+  rewrite H1, H2. reflexivity.
+Qed.
+
+Lemma slice_length s a b : a <= b -> b <= length s -> length (slice s a b) = b - a.
+Proof. intros H1 H2. unfold slice. rewrite firstn_length, skipn_length. lia. Qed.
+
+Definition tp_chk_body (input : bytes) (index : nat) : option (nat * nat) :=
+    obind (sub_chk (length input) 1) (fun last =>
+    let safe_index := Nat.min index last in
+    obind (sub_chk index safe_index) (fun column_offset =>
+    let index := safe_index in
+    obind (slice_chk input 0 index) (fun pre =>
+    obind (match find_index is_lf (rev pre) with
+           | Some nl => obind (sub_chk index nl) (fun x => obind (sub_chk x 1) (fun y => Some (Some y)))
+           | None => Some None
+           end) (fun nl =>
+    let line_start := match nl with Some nl => nl + 1 | None => 0 end in
+    obind (slice_chk input 0 line_start) (fun before =>
+    let line := length (filter is_lf before) in
+    obind (slice_chk input line_start (S index)) (fun incl =>
+    obind (if utf8_valid_b incl then sub_chk (chars_count incl) 1
+           else obind (slice_chk input line_start index) (fun excl =>
+                if utf8_valid_b excl then Some (chars_count excl)
+                else sub_chk index line_start)) (fun column =>
+    Some (line, column + column_offset)))))))).
+
+Lemma translate_position_chk_ne s i : s <> [] -> translate_position_chk s i = tp_chk_body s i.
+Proof. destruct s; [congruence|reflexivity]. Qed.
+
+(* every slice bound and every subtraction inside translate_position is in range, for every
+   input and every index (no hypothesis on UTF-8 validity or on the index is needed) *)
+Lemma translate_position_total s i : translate_position_chk s i = Some (translate_position s i).
+Proof.
+  destruct (list_eq_dec Byte.byte_eq_dec s []) as [->|Hne]; [reflexivity|].
+  rewrite translate_position_chk_ne, translate_position_ne by exact Hne.
+  assert (Hlen : 0 < length s) by (destruct s; [congruence|cbn; lia]).
+  unfold tp_chk_body, tp_body. cbv zeta.
+  rewrite (sub_chk_ok (length s) 1) by lia. cbn [obind].
+  set (idx := Nat.min i (length s - 1)).
+  assert (Hidx : idx < length s) by (unfold idx; lia).
+  rewrite (sub_chk_ok i idx) by (unfold idx; lia). cbn [obind].
+  rewrite (slice_chk_ok s 0 idx) by lia. cbn [obind].
+  assert (Hpre : length (slice s 0 idx) = idx) by (rewrite slice_length; lia).
+  set (fi := find_index is_lf (rev (slice s 0 idx))).
+  assert (Hfi : match fi with Some k => k < idx | None => True end).
+  { unfold fi. destruct (find_index is_lf (rev (slice s 0 idx))) as [k|] eqn:Ek; [|exact I].
+    apply find_index_lt in Ek. rewrite rev_length, Hpre in Ek. exact Ek. }
+  assert (Enl : match fi with
+                | Some nl => obind (sub_chk idx nl) (fun x => obind (sub_chk x 1) (fun y => Some (Some y)))
+                | None => Some None
+                end = Some (option_map (fun nl => idx - nl - 1) fi)).
+  { destruct fi as [k|]; [|reflexivity]. cbn [option_map].
+    rewrite (sub_chk_ok idx k) by lia. cbn [obind]. rewrite (sub_chk_ok (idx - k) 1) by lia. reflexivity. }
+  rewrite Enl. cbn [obind].
+  set (ls := match option_map (fun nl => idx - nl - 1) fi with Some nl => nl + 1 | None => 0 end).
+  assert (Hls : ls <= idx).
+  { unfold ls. destruct fi as [k|]; cbn [option_map]; lia. }
+  rewrite (slice_chk_ok s 0 ls) by lia. cbn [obind].
+  rewrite (slice_chk_ok s ls (S idx)) by lia. cbn [obind].
+  destruct (utf8_valid_b (slice s ls (S idx))) eqn:Ev.
+  - assert (P : 1 <= chars_count (slice s ls (S idx))).
+    { apply valid_chars_pos; [exact Ev|]. intro Z. apply (f_equal (@length byte)) in Z.
+      rewrite slice_length in Z by lia. change (length (@nil byte)) with 0 in Z. lia. }
+    rewrite sub_chk_ok by exact P. reflexivity.
+  - rewrite (slice_chk_ok s ls idx) by lia. cbn [obind].
+    destruct (utf8_valid_b (slice s ls idx)); [reflexivity|].
+    rewrite sub_chk_ok by exact Hls. reflexivity.
+Qed.
+
+(* `raw.split('\n')` yields one more piece than there are LF bytes *)
+Lemma split_lf_acc_length cur s : length (split_lf_acc cur s) = S (count_lf s).
+Proof.
+  revert cur. unfold count_lf. rewrite lf_is_lf.
+  induction s as [|b s IH]; intro cur; [reflexivity|]. cbn [split_lf_acc filter].
+  destruct (is_lf b); cbn [length]; rewrite IH; reflexivity.
+Qed.
+
+Lemma split_lf_length s : length (split_lf s) = S (count_lf s).
+Proof. apply split_lf_acc_length. Qed.
+
+Lemma count_lf_firstn n s : count_lf (firstn n s) <= count_lf s.
+Proof.
+  rewrite <- (firstn_skipn n s) at 2. unfold count_lf. rewrite filter_app, app_length. lia.
+Qed.
+
+(* the line translate_position reports always exists in the text *)
+Lemma translate_position_line s i : fst (translate_position s i) <= count_lf s.
+Proof.
+  destruct (list_eq_dec Byte.byte_eq_dec s []) as [->|Hne]; [cbn; lia|].
+  destruct (translate_position_shape s i Hne) as (q & cl & b & rest' & Es & Ep & _ & _ & Hcnt & _ & Htp).
+  cbv zeta in *. rewrite Htp. cbn [fst]. rewrite Hcnt. apply count_lf_firstn.
+Qed.
+
+Lemma render_total_span s a b : a <= b -> exists r, render s (a, b) = ROk r.
+Proof.
+  intro Hab. unfold render. rewrite translate_position_total.
+  pose proof (translate_position_line s a) as Hl.
+  destruct (translate_position s a) as [line column]. cbn [fst] in Hl.
+  destruct (nth_error (split_lf s) line) as [content|] eqn:En.
+  - rewrite sub_chk_ok by exact Hab. eauto.
+  - apply nth_error_None in En. rewrite split_lf_length in En. lia.
+Qed.
+
+Lemma render_total s off :
+  utf8_valid_b s = true -> off <= length s -> exists r, render s (char_span s off) = ROk r.
+Proof.
+  intros Hv Hoff. pose proof (span_ok s off Hv Hoff) as H.
+  destruct (char_span s off) as [a b]. apply render_total_span. tauto.
+Qed.
+
+(* what is rendered: the 1-based line and column of the span start as the specification counts them *)
+Lemma render_position s off r :
+  utf8_valid_b s = true -> off <= length s -> render s (char_span s off) = ROk r ->
+  r_line_num r = lines_before s (fst (char_span s off)) + 1
+  /\ r_col_num r = chars_since_line_start s (fst (char_span s off)) + 1.
+Proof.
+  intros Hv Hoff. pose proof (span_ok s off Hv Hoff) as H.
+  destruct (char_span s off) as [a b]. destruct H as (Hab & Hb & Ba & Bb & Hao). cbn [fst].
+  unfold render. rewrite translate_position_total.
+  rewrite (position_correct s a Hv Ba) by lia.
+  destruct (nth_error (split_lf s) (lines_before s a)); [|discriminate].
+  rewrite sub_chk_ok by exact Hab. intro E. injection E as <-. cbn. auto.
+Qed.
